@@ -1,5 +1,5 @@
 """Texts of MANIFEST.json per claimed property."""
-HOOK_COMMITS = []
+HOOK_COMMITS = ["e612c74 verif hook: cfg(nomt_verif)-guarded I/O event hook and rollback segment size override"]
 NOTES = "All claimed checks use one technique: machine-checked proof in Lean 4 about a hand-written model, tied to /repo by a correspondence (differential) run of the compiled Lean model against the real code on every invocation. See DESIGN.md."
 NOT_YET = {}
 CLAIMS = {
@@ -50,5 +50,23 @@ CLAIMS = {
         "design_ref": "§4 C09/C12",
         "note": "Trusted: Lean kernel; protocol model hand-written, tied by the differential (results, root, seqn, values, later rollbacks).",
         "technique": "Lean 4 theorem (rejected/deferred commit = identity on the state) + competing-changeset history differential",
+    },
+    "C03": {
+        "text": "T3.1 (kernel-checked): in the abstract disk model every process-crash image of every prefix of a sync trace satisfying the order/placement clauses recovers to exactly the old or exactly the new abstract state, and to the new one once the trace is complete (corollary of C04's theorem). On the real code every operation chosen from generated histories is crashed (process exit) at EVERY I/O event index, including nested crashes at every event of recovery; the reopened directory must show exactly the pre- or post-state (values, root, seqn, proofs from the same side; post once the call returned) and accept a follow-up commit with the reference root.",
+        "design_ref": "§4 C03/C04/C17",
+        "note": "Trusted: Lean kernel; disk semantics of the model; the trace predicate is not yet evaluated on real traces by the Lean driver (the real code is crashed instead); rollback-log component of the recovery abstraction omitted in the theorem (covered by the enumeration).",
+        "technique": "Lean 4 theorem (phase invariants over every trace prefix) + exhaustive crash-point enumeration of the real code in child processes",
+    },
+    "C04": {
+        "text": "T4.1 (kernel-checked): for every accepted sync trace, every prefix and EVERY sub-list of the not-yet-fsynced effects kept, recovery yields the old or the new state; the new state after the full trace. On the real code a journal of before-images of un-fsynced effects (kept by the harness side of the I/O hook) lets a child revert all / random / each single un-synced effect at every event index before dying; the reopened store must be exactly pre or post.",
+        "design_ref": "§4 C03/C04/C17",
+        "note": "Trusted: Lean kernel; page atomicity; fsync makes exactly the file's completed prior effects durable (hook journal rule); tmpfs instead of a block device.",
+        "technique": "Lean 4 theorem (all loss subsets x all prefixes) + power-loss image enumeration on the real code via the I/O hook journal",
+    },
+    "C14": {
+        "text": "T14.1-T14.3 on the poison layer of the API model (a faulted commit returns err and poisons; a poisoned handle refuses everything unchanged; transparent without fault) and T14.4 (disk model: a sync cut short by a failure leaves pre or post). On the real code every I/O event of chosen operations is made to fail (EIO once / persistently): the call must report the error, the handle must be poisoned, reopening must show pre or post. Re-found and repaired F2 (write_ht swallowed write errors) and F8 (rollback-log append failure left an unpoisoned handle with an advanced root).",
+        "design_ref": "§4 C14",
+        "note": "Trusted: Lean kernel; fault model = EIO at the hooked operation (a failing write is not performed; a failing fsync is performed but reported failed).",
+        "technique": "Lean 4 theorems (poison protocol + atomicity of a cut-short sync) + fault injection at every I/O event of the real code",
     },
 }
